@@ -320,6 +320,16 @@ add("C32", "TLC on Leapfrog.tla (exact leapfrog trajectories; reversibility and 
     "is the Bernoulli draw of min(1, exp(H0 - H1)).",
     TRUST + "the statistical part of the statement (long chains reproduce the moments) has no finite-state content and is NOT decided by this check.")
 
+add("C02", "TLC on IndexOps.tla (exact sparse matrices of the index-map operators incl. contraction / integration, transposition, inserters, slicing, stepped slices; permutation and slice-length laws) + replay into the real operators (forward and adjoint) + adjoint / linearity / inverse / target / input-unchanged laws over a catalogue of every exported linear operator class",
+    "IndexOps.tla gives per instance the sparse matrix of ContractionOperator / IntegrationOperator (every set of contracted spaces, weights), "
+    "TransposeOperator (all six orders of three sub-domains), ValueInserter, DomainTupleFieldInserter, SliceOperator (start / centred, also next to "
+    "a multi-axis sub-domain kept by None and next to an unstructured domain) and SplitOperator with stepped python slices; TLC checks "
+    "(partial) permutation laws and that a slice selects ceil((stop-start)/step) pixels; dense forward and adjoint matrices of the real "
+    "operators are compared. 56 constructions covering every exported linear operator class are checked with seeded real and complex vectors for "
+    "<y, A x> = <A^H y, x> (real part for the real-linear ones), linearity with complex factors, advertised (adjoint) inverses, the declared "
+    "target and that the input field is not modified.",
+    TRUST + "exact matrices of the harmonic / padding / regridding / interpolation / mask / line-of-sight / non-uniform Fourier operators are in C09 and C35, the operator algebra in C01.")
+
 
 def main():
     props = [json.loads(l) for l in open(os.path.join(HERE, "properties.jsonl"))]
